@@ -1131,6 +1131,17 @@ fn start_replication(
     is_primary: bool,
     dbs: &Arc<Databases>,
 ) {
+    #[cfg(feature = "verif")]
+    if let Some(transport) = crate::verif::transport() {
+        transport(crate::verif::LinkRequest {
+            peer_address: replicate_address,
+            command_receiver,
+            own_address: tcp_addr,
+            is_primary,
+            dbs: dbs.clone(),
+        });
+        return;
+    }
     log::info!(
         "replicating to tcp client in the addr: {}",
         replicate_address
